@@ -146,6 +146,86 @@ Proof.
   destruct op, (okind b); cbn; intros H; inversion H; subst; cbn; rewrite ?E; repeat split; reflexivity.
 Qed.
 
+
+(* ------------------------------------------------------------------ all expressions: affine evaluation *)
+Lemma plus_spec x y r : plus x y = Some r ->
+  value (ojd r) == value (ojd x) + value (ojd y) /\ kweight (okind r) = (kweight (okind x) + kweight (okind y))%Z
+  /\ oscale r = oscale x /\ oscale r = oscale y.
+Proof.
+  destruct x as [kx sx fx [x1 x2]], y as [ky sy fy [y1 y2]].
+  unfold plus, plus_q, model. cbn [okind oscale ofmt ojd].
+  destruct (String.eqb sx sy) eqn:E; cbn [negb]; [|destruct kx; discriminate].
+  apply String.eqb_eq in E. subst.
+  destruct kx, ky; cbn; intros H; inversion H; subst; cbn; unfold value; cbn; repeat split; try ring.
+Qed.
+
+Lemma minus_spec x y r : minus x y = Some r ->
+  value (ojd r) == value (ojd x) - value (ojd y) /\ kweight (okind r) = (kweight (okind x) - kweight (okind y))%Z
+  /\ oscale r = oscale x /\ oscale r = oscale y.
+Proof.
+  destruct x as [kx sx fx [x1 x2]], y as [ky sy fy [y1 y2]].
+  unfold minus, minus_q, model. cbn [okind oscale ofmt ojd].
+  destruct (String.eqb sx sy) eqn:E; cbn [negb]; [|destruct kx; discriminate].
+  apply String.eqb_eq in E. subst.
+  destruct kx, ky; cbn; intros H; inversion H; subst; cbn; unfold value; cbn; repeat split; try ring.
+Qed.
+
+(* every expression built from epochs and durations with +, -, unary minus that the specification accepts
+   evaluates to the signed sum of its leaves; it is an epoch iff the signed count of epochs is 1, a duration iff 0 *)
+Lemma run_affine_l t : forall r, run t = Some r ->
+  value (ojd r) == aff t /\ kweight (okind r) = weight t.
+Proof.
+  induction t as [x|a IHa b IHb|a IHa b IHb|a IHa]; intros r H; cbn [run aff weight] in *.
+  - inversion H. subst. split; reflexivity.
+  - destruct (run a) as [x|]; [|discriminate]. destruct (run b) as [y|]; [|discriminate]. cbn [obind] in H.
+    destruct (IHa x eq_refl) as [A1 A2]. destruct (IHb y eq_refl) as [B1 B2].
+    apply plus_spec in H. destruct H as (V & K & _). split; [rewrite V, A1, B1; reflexivity|lia].
+  - destruct (run a) as [x|]; [|discriminate]. destruct (run b) as [y|]; [|discriminate]. cbn [obind] in H.
+    destruct (IHa x eq_refl) as [A1 A2]. destruct (IHb y eq_refl) as [B1 B2].
+    apply minus_spec in H. destruct H as (V & K & _). split; [rewrite V, A1, B1; reflexivity|lia].
+  - destruct (run a) as [x|]; [|discriminate]. cbn [obind] in H.
+    destruct (IHa x eq_refl) as [A1 A2]. unfold neg_opt in H.
+    destruct x as [kx sx fx [x1 x2]]. cbn [okind] in *. destruct kx; [discriminate|].
+    inversion H. subst. cbn. unfold value in *. cbn in *. split; [rewrite <- A1; ring|lia].
+Qed.
+
+(* consequence: two accepted expressions with the same signed sum of leaves denote the same point *)
+Lemma run_affine_eq t t' r r' :
+  run t = Some r -> run t' = Some r' -> aff t == aff t' -> weight t = weight t' ->
+  value (ojd r) == value (ojd r') /\ okind r = okind r'.
+Proof.
+  intros H H' E W. destruct (run_affine_l t r H) as [A K]. destruct (run_affine_l t' r' H') as [A' K'].
+  split; [rewrite A, A', E; reflexivity|].
+  destruct (okind r), (okind r'); cbn in *; try reflexivity; lia.
+Qed.
+
+Lemma run_defined sc t : wellformed sc t = true -> exists r, run t = Some r /\ oscale r = sc.
+Proof.
+  induction t as [x|a IHa b IHb|a IHa b IHb|a IHa]; cbn [wellformed run]; intros H.
+  - apply String.eqb_eq in H. exists x. split; [reflexivity|exact H].
+  - repeat (apply andb_prop in H; destruct H as [H ?]).
+    destruct (IHa H) as (x & Ra & Sa). destruct (IHb H2) as (y & Rb & Sb).
+    rewrite Ra, Rb. cbn [obind].
+    destruct (run_affine_l a x Ra) as [_ Ka]. destruct (run_affine_l b y Rb) as [_ Kb].
+    apply Z.leb_le in H1. apply Z.leb_le in H0.
+    destruct x as [kx sx fx [x1 x2]], y as [ky sy fy [y1 y2]]. cbn [okind oscale] in *. subst sx sy.
+    unfold plus, plus_q, model. cbn [okind oscale ofmt ojd]. rewrite String.eqb_refl. cbn [negb].
+    destruct kx, ky; cbn in Ka, Kb; try (exfalso; lia); eexists; split; reflexivity.
+  - repeat (apply andb_prop in H; destruct H as [H ?]).
+    destruct (IHa H) as (x & Ra & Sa). destruct (IHb H2) as (y & Rb & Sb).
+    rewrite Ra, Rb. cbn [obind].
+    destruct (run_affine_l a x Ra) as [_ Ka]. destruct (run_affine_l b y Rb) as [_ Kb].
+    apply Z.leb_le in H1. apply Z.leb_le in H0.
+    destruct x as [kx sx fx [x1 x2]], y as [ky sy fy [y1 y2]]. cbn [okind oscale] in *. subst sx sy.
+    unfold minus, minus_q, model. cbn [okind oscale ofmt ojd]. rewrite String.eqb_refl. cbn [negb].
+    destruct kx, ky; cbn in Ka, Kb; try (exfalso; lia); eexists; split; reflexivity.
+  - apply andb_prop in H. destruct H as [H W]. apply Z.eqb_eq in W.
+    destruct (IHa H) as (x & Ra & Sa). rewrite Ra. cbn [obind].
+    destruct (run_affine_l a x Ra) as [_ Ka]. unfold neg_opt.
+    destruct x as [kx sx fx [x1 x2]]. cbn [okind oscale] in *. destruct kx; cbn in Ka; [exfalso; lia|].
+    eexists. split; [reflexivity|exact Sa].
+Qed.
+
 (* ------------------------------------------------------------------ duration formats *)
 Lemma unit_days_pos f : 0 < unit_days f.
 Proof. destruct f; reflexivity. Qed.
